@@ -31,7 +31,7 @@ ASSUMPTIONS = [
     "unique ids are distinct per spreadsheet row (artificial fee rows share the id of their acquisition and are told apart by table)",
 ]
 
-HIST = gen.GenCfg(min_steps=4, max_steps=12, max_exchanges=2, max_holders=2)
+HIST = gen.GenCfg(min_steps=4, max_steps=12, max_exchanges=2, max_holders=2, bulk_prob=0.05)
 EVENT_COLS = (5, 6, 7, 8, 9, 10, 11)
 LOT_COLS = (12, 13, 14, 15, 16, 17, 18, 19)
 
@@ -79,6 +79,7 @@ def evaluate(case: Dict[str, Any]) -> Outcome:
     out = Outcome()
     lang = c13.effective_lang(case)
     out.classes.add(f"{case['country']}/{lang}")
+    out.classes |= cli_common.volume_classes(case)
     folder = cli_common.work_dir("c19")
     try:
         result, reference, outdir, rows_model = c13.run_and_reference(case, folder)
